@@ -556,7 +556,7 @@ func cleanDataDir(dir string) {
 func execSession(t *testing.T, plan *simkit.Plan) *simkit.Result {
 	dataDir := filepath.Join(os.Getenv("MUTAGEN_DATA_DIRECTORY"))
 	if dataDir == "" {
-		d, _ := os.MkdirTemp("/dev/shm", "verif-syncsim-data-")
+		d, _ := simkit.MkdirTemp("/dev/shm", "verif-syncsim-data-")
 		dataDir = d
 		os.Setenv("MUTAGEN_DATA_DIRECTORY", d)
 	}
